@@ -67,6 +67,20 @@ func genC11(c *Ctx) {
 			d = tvMap("str", [][2]any{{hx("ws"), tvWin(base, [2]int{0, 2}, [2]int{1, 3}, [2]int{2, 4}, [2]int{0, 6}, [2]int{4, 5})}, {hx("n"), tvF64(2)},
 				{hx("gs"), tvWinKey("ids", base, [2]int{0, 2}, [2]int{3, 5}, [2]int{1, 3}, [2]int{4, 6})}})
 		}
+		// filters in a row over a list held as []any whose elements all pass the first filter: the second filter works on what
+		// the first one handed on - which must not be the caller's own list
+		filtersInARow := i%10 == 3
+		if filtersInARow {
+			var items []*TV
+			for j := 0; j < 4+i%3; j++ {
+				items = append(items, tvMap("str", [][2]any{{hx("n"), tvF64(float64(j + 1))}, {hx("k"), tvStr(string(rune('a' + (j*7+i/10)%3)))}, {hx("ok"), tvBool(j%2 == 0)}}))
+			}
+			var nums []*TV
+			for j := 0; j < 5; j++ {
+				nums = append(nums, tvF64(float64((j*3+i/10)%7+1)))
+			}
+			d = tvMap("str", [][2]any{{hx("items"), tvSlice(1, items...)}, {hx("nums"), tvSlice(1, nums...)}, {hx("lim"), tvF64(0)}})
+		}
 		data := buildAny(d)
 		copyData := buildAny(d)
 		before := canonV(reflect.ValueOf(data))
@@ -92,7 +106,12 @@ func genC11(c *Ctx) {
 					`$.ws.Select("$")`, `$.ws.Select("@")`, "$.ws.First()", "$.ws.Last()", `$.ws.Select("$").Count()`, `$.ws[@.Count().Greater($.n)]`, `$.ws.Select("$.First()")`,
 					`$.ws.Index(1).Select("$")`, `$.ws.Select("$").Last()`, "$.ws.Index(3)"}[(j+i/10)%16]
 			}
-			if j == 5 && i%4 == 1 {
+			if filtersInARow {
+				q = []string{`$.items[@.n.Greater(0)][@.k.Equal("b")]`, `$.items[@.n.Greater($.lim)][@.ok]`, `$.items[@.n.Greater(0)][@.k.Equal("a")].n`, `$.nums[@.Greater(0)][@.Less(4)]`,
+					`$.items[@.n.Greater(0)][@.n.Greater(0)][@.k.NotEqual("c")].Count()`, `$.nums[@.Greater($.lim)][@.Greater(3)].Sum()`, `$.items[OR,@.ok,@.n.Greater(0)][@.ok.Not()].k`,
+					`$.items[@.n.Greater(0)][@.k.Equal("c")].First().n`}[(j+i/10)%8]
+			}
+			if j == 5 && i%4 == 1 && !filtersInARow {
 				// a text argument with blanks around it, handed to a function that reads numbers
 				q = r.Pick([]string{`$.n.Sum(" 1000 ")`, `$.n.Average("2 ")`, `$.n.Minimum("\t3")`, `$.n.Maximum(" x")`, `$.n.Add(" 5")`, `$.n.Equal(" 2 ")`, `$.n.AnyOf(" 2","2 ")`, `$.xs.Sum(" 1 ")`, `$.a.Contains(" a ")`})
 			}
